@@ -209,10 +209,26 @@ def check_builders(chk, rep, repo):
     if len(st) == 1 and len(st[0].loops) == 2:
         e = st[0]
         li, lj = w.loops[e.loops[0]], w.loops[e.loops[1]]
-        i, j = ("iter", li.domain, li.lid), ("iter", lj.domain, lj.lid)
         size = ("idx", ("attr", ("param", "data"), "shape"), ("const", 0))
-        rng = lambda t: ("call", ("builtin", "range"), (t,), ())
-        full = li.domain in (rng(size), rng(("call", ("builtin", "len"), (("param", "data"),), ()))) and lj.domain == li.domain
+        sizes = (size, ("call", ("builtin", "len"), (("param", "data"),), ()))
+        arr_t = e.target[1][1]
+
+        def rows(lp):
+            """Index term when the loop visits every row number of `data` once, ascending."""
+            d = lp.domain
+            if d[0] == "call" and d[1] == ("builtin", "range") and not d[3] and (
+                    (len(d[2]) == 1 and d[2][0] in sizes) or (len(d[2]) == 2 and d[2][0] == ("const", 0) and d[2][1] in sizes)):
+                return ("iter", d, lp.lid)
+            if d[0] == "call" and d[1] == ("builtin", "enumerate") and len(d[2]) == 1 and not d[3]:
+                x = d[2][0]
+                square = x == arr_t and arr_t[2] and arr_t[2][0][0] == "tuple" and len(arr_t[2][0][1]) == 2 \
+                    and all(t in sizes for t in arr_t[2][0][1])
+                if x == ("param", "data") or square:
+                    return ("iterproj", d, lp.lid, (0,))
+            return None
+
+        i, j = rows(li), rows(lj)
+        full = i is not None and j is not None
         val = e.value
         okv = (val[0] == "call" and val[1] == ("idx", ("mod", "opfython.math.distance.DISTANCES"), ("param", "distance"))
                and val[2] == (("idx", ("param", "data"), i), ("idx", ("param", "data"), j)))
